@@ -221,7 +221,7 @@ def slice_view(eng, base, sl):
     lo = z3.simplify(clamp(sl.start, z3.IntVal(0)))
     hi = z3.simplify(clamp(sl.stop, n))
     ln = z3.simplify(z3.If(hi >= lo, hi - lo, z3.IntVal(0)))
-    v = SArr(lam(lambda i: base.get(i + lo).z, base.kind), ln, base.kind, name=base.name + "_sl")
+    v = SArr(lam(lambda i: base.get(i + lo).z, base.kind), ln, base.kind, name=base.name + "_sl", dtype=base.dtype)  # a view has its base's dtype
     v.view_of = (base, lo)
     v.uid = base.uid
     v.frozen = base.frozen
